@@ -62,7 +62,11 @@ template <typename I> uint64_t IfaceHashRt() { return I::GetInterfaceHash(); }
 template <int I> struct LitCall;
 template <int I> uint64_t LitRt(uint64_t k0, uint64_t k1) { return LitCall<I>::run(k0, k1); }
 
+// a method whose name is also an object-like macro in this translation unit: the selector is a function of the name as
+// declared (NOP_METHOD stringifies it), not of whatever the preprocessor would expand it to
+#define VfMacroNamedMethod VfExpandedMethodName
 #include "hash_names.inc"
+#undef VfMacroNamedMethod
 
 static bool has_high(const uint8_t* p, size_t n) { for (size_t i = 0; i < n; i++) if (p[i] >= 0x80) return true; return false; }
 
@@ -104,11 +108,18 @@ static void c18_random(uint64_t ncases) {
     uint64_t ch = rt_compute<char>(h, len, k0, k1);
     uint64_t i8 = rt_compute<int8_t>(h, len, k0, k1);
     bool high = has_high(h, len);
+    // generic containers (anything with size() and operator[]) are accepted by Compute as well
+    uint64_t g_str = nop::SipHash::Compute(std::string(reinterpret_cast<const char*>(h), len), k0, k1);
+    uint64_t g_vc = nop::SipHash::Compute(std::vector<char>(reinterpret_cast<const char*>(h), reinterpret_cast<const char*>(h) + len), k0, k1);
+    uint64_t g_vs = nop::SipHash::Compute(std::vector<signed char>(reinterpret_cast<const signed char*>(h), reinterpret_cast<const signed char*>(h) + len), k0, k1);
+    uint64_t g_vu = nop::SipHash::Compute(std::vector<uint8_t>(h, h + len), k0, k1);
     rep().note(hash_combine(hash_bytes(h, len), hash_combine(k0, k1)), len > 0);
     rep().count("c18_runtime_cases"); rep().count(fmt("c18_len_mod8_%zu", len % 8)); if (len > 255) rep().count("c18_len_gt_255"); if (len > 1024) rep().count("c18_len_gt_1024");
     if (high) rep().count("c18_cases_with_high_bit_bytes");
     std::string cj = case_desc(T, (int64_t)c, "runtime", J().u("len", len).u("k0", k0).u("k1", k1).s("bytes", hex(h, len, 64)).str());
     if (u8 != ref) rep().violation(fmt("oracle-siphash:runtime-uint8:len%%8=%zu:%s", len % 8, len >= 8 ? "blocks" : "tail-only"), fmt("SipHash::Compute(BlockReader<uint8_t>) = %016" PRIx64 " but SipHash-2-4 = %016" PRIx64 " (len %zu)", u8, ref, len), cj);
+    { const uint64_t gv[4] = {g_str, g_vc, g_vs, g_vu}; const char* gn[4] = {"std::string", "std::vector<char>", "std::vector<signed char>", "std::vector<uint8_t>"};
+      for (int gi = 0; gi < 4; gi++) if (gv[gi] != ref) rep().violation(fmt("oracle-siphash:runtime-container:%s%s", gn[gi], high ? ":high-bit-bytes" : ""), fmt("SipHash::Compute(%s) = %016" PRIx64 " but SipHash-2-4 = %016" PRIx64 " (len %zu)", gn[gi], gv[gi], ref, len), cj); }
     for (int which = 0; which < 2; which++) {
       uint64_t v = which ? i8 : ch; const char* nm = which ? "int8_t" : "char";
       if (v != ref) {
